@@ -400,6 +400,11 @@ def flex_writers(F, R):
     R.ob("P6.fromiter-slot-values", fn, "stores", vals == want_v,
          "%s: slot stores are the initial zero terminator, L::MAX for the newest item and the sealed extent of its predecessor%s" % (fn, "" if vals == want_v else " -- found %s" % vals),
          where=b["span"])
+    ie = [(bb, t) for bb, t in find_calls(body, "Emplacer::emplace") if t["call"]["args"] and t["call"]["args"][0] == "E"]
+    iu = [(bb, t) for bb, t in find_calls(body, "Emplacer::emplace_unchecked") if t["call"]["args"] and t["call"]["args"][0] == "E"]
+    ok = len(ie) == 1 and not iu and ab(canon(body.expr_of_call(ie[0][1], 0, ie[0][0])[3][1])) == "slice::split_at_mut(%data, OFFSET_SIZE).1"
+    R.ob("P6.fromiter-item", fn, "item", ok,
+         "%s: every item goes through the checked Emplacer::emplace (alignment and MIN_SIZE gate) on the payload behind its slot" % fn, where=b["span"])
     # R3: the zero terminator is stored before anything else can fail
     z = [bb for bb, _, v, _ in ss if v == "ZERO"]
     others = [bb for bb, t in body.calls() if bb not in z and t["call"].get("def", "").endswith(("Emplacer::emplace", "Iterator::next"))]
